@@ -155,6 +155,133 @@ pub fn run_large(prop: &str, args: &Args, rep: &mut Report) {
     });
 }
 
+/// Hand-built sessions in buffers of 70,000 bytes: lengths, cursor positions, offsets, entry positions, token counts and
+/// terminal columns cross 65,535 / 65,536 under the same monitors (a handful of sessions of ~10^5 operations each; no
+/// shrinking, the witness is the session itself).
+pub fn huge_session(which: u64) -> (SessionCfg, Vec<Op>) {
+    const UP: [u8; 3] = [0x1b, b'[', b'A'];
+    const DOWN: [u8; 3] = [0x1b, b'[', b'B'];
+    const LEFT: [u8; 3] = [0x1b, b'[', b'D'];
+    const RIGHT: [u8; 3] = [0x1b, b'[', b'C'];
+    let mut ops: Vec<Op> = vec![];
+    let mut cfg = SessionCfg { cmd: 70_000, hist: 0, prompt: 0, set: SetKind::Raw, use_new: false, chunk: 0, script: vec![], pform: 0 };
+    let put = |ops: &mut Vec<Op>, b: &[u8], n: usize| {
+        for _ in 0..n {
+            ops.extend(b.iter().map(|&x| Op::Byte(x)));
+        }
+    };
+    match which % 6 {
+        0 => {
+            // one-byte characters up to and across 65,535 / 65,536; a few moves and edits at the far end and at the start; submit
+            put(&mut ops, b"a", 65_530);
+            for s in ["b", "é", "c", "€", "d", "e", "𐍈", "f", "g", "i"] {
+                put(&mut ops, s.as_bytes(), 1);
+            }
+            put(&mut ops, &LEFT, 12);
+            put(&mut ops, b"x", 2);
+            put(&mut ops, &[0x08], 3);
+            put(&mut ops, &RIGHT, 20);
+            put(&mut ops, b"yz", 1);
+            put(&mut ops, b"\r", 1);
+        }
+        1 => {
+            // two-byte characters: 32,768 characters are 65,536 bytes; cursor walks back over the boundary
+            put(&mut ops, "é".as_bytes(), 32_760);
+            for s in ["a", "é", "€", "é", "é", "b", "é", "é", "é", "é", "é", "é", "𐍈"] {
+                put(&mut ops, s.as_bytes(), 1);
+            }
+            put(&mut ops, &LEFT, 40);
+            put(&mut ops, "ж".as_bytes(), 3);
+            put(&mut ops, &[0x08], 5);
+            put(&mut ops, b"\n", 1);
+        }
+        2 => {
+            // 33,000 tokens in 66,000 bytes, then an argument inserted near the start
+            put(&mut ops, b"a ", 33_000);
+            put(&mut ops, b"\r\n", 1);
+        }
+        3 => {
+            // history of 70,000 bytes filled and turned over by 1,000-byte lines; walk to the oldest entry and back
+            cfg.cmd = 1_100;
+            cfg.hist = 70_000;
+            for i in 0..75u32 {
+                let c = [b'a' + (i % 26) as u8];
+                put(&mut ops, &c, 990 + (i as usize % 7));
+                put(&mut ops, b"\r", 1);
+            }
+            put(&mut ops, &UP, 75);
+            put(&mut ops, &DOWN, 80);
+            put(&mut ops, &UP, 3);
+            put(&mut ops, b"\r", 1);
+            put(&mut ops, &UP, 2);
+        }
+        4 => {
+            // 17,500 stored entries: offsets beyond 65,535 with short entries, eviction and re-submission of old lines
+            cfg.cmd = 16;
+            cfg.hist = 70_000;
+            for i in 0..23_500u32 {
+                // 17,576 distinct lines of 3 + 1 bytes: 70,304 bytes turn the buffer over; later ones are re-submissions
+                let a = b'a' + (i % 26) as u8;
+                let b = b'a' + ((i / 26) % 26) as u8;
+                let c = b'a' + ((i / 676) % 26) as u8;
+                put(&mut ops, &[a, b, c], 1);
+                put(&mut ops, b"\r", 1);
+            }
+            put(&mut ops, &UP, 400);
+            put(&mut ops, &DOWN, 30);
+        }
+        _ => {
+            // an application write while a 66,000-character line is being edited with the cursor far inside; prompt change
+            put(&mut ops, b"a", 65_600);
+            put(&mut ops, &LEFT, 300);
+            ops.push(Op::Write(vec![crate::rig::WCall { kind: crate::rig::WKind::Str, text: "note\n".into() }]));
+            put(&mut ops, b"b", 2);
+            ops.push(Op::SetPrompt(3));
+            put(&mut ops, &[0x08], 1);
+            put(&mut ops, b"\r", 1);
+        }
+    }
+    (cfg, ops)
+}
+
+pub fn run_huge(prop: &str, args: &Args, rep: &mut Report) {
+    let env = SessionEnv::from_build(prop_bit(prop));
+    let n = 6u64;
+    for idx in 0..n {
+        if !mine(args, idx) || args.only.map(|o| o != idx).unwrap_or(false) {
+            continue;
+        }
+        let (cfg, ops) = huge_session(idx);
+        rep.cases += 1;
+        let r = run_guarded(&cfg, &ops, &env, rep);
+        rep.count_n("ops", r.ops_run as u64);
+        rep.count_n("huge.ops", r.ops_run as u64);
+        if let Some(w) = r.inconclusive {
+            rep.inconclusive(w);
+        }
+        let mut done: Vec<(String, String, String)> = vec![];
+        for f in &r.found {
+            let key = (f.prop.to_string(), f.clause.to_string(), f.tag.clone());
+            if done.contains(&key) {
+                continue;
+            }
+            done.push(key);
+            // the witness is the first `op_index + 1` operations of the hand-built session (not shrunk: one run costs seconds)
+            let upto = (f.op_index + 1).min(ops.len());
+            let mut f2 = f.clone();
+            if f2.detail.len() > 600 {
+                let mut cut = 600;
+                while !f2.detail.is_char_boundary(cut) {
+                    cut -= 1;
+                }
+                f2.detail.truncate(cut);
+                f2.detail.push_str(" ...");
+            }
+            rep.violation(session_violation(&cfg, &ops[..upto], &f2));
+        }
+    }
+}
+
 /// Replay one explicit session with every monitor of `prop` on, verbosely.
 pub fn replay(prop: &str, session: &str, rep: &mut Report) -> bool {
     let (cfg, ops) = match decode_session(session) {
